@@ -6,9 +6,10 @@
    the executable [well_scoped] / [dialect_ok]; the theorems below are about that checker (it is not merely a test):
    what a verdict OK means, that no reference of the tree escapes it, CTE order, monotonicity -- and the finite
    dialect / template tables the compiler's own flags must agree with. *)
-From Coq Require Import List NArith Bool.
+From Coq Require Import List NArith ZArith Bool.
 From PV Require Import Lib.ListX Model.SqlAst Model.SqlScope Model.SqlScopeTok Model.DialectFeat
-  Proofs.SqlScopeProofs Proofs.SqlScopeTok Proofs.SqlScopeDialect Gen.GenDialectFeat.
+  Model.Checked Model.RangeArith Model.SelectClauses
+  Proofs.SqlScopeProofs Proofs.SqlScopeTok Proofs.SqlScopeDialect Proofs.SelectClausesProofs Gen.GenDialectFeat.
 Import ListNotations.
 Local Open Scope N_scope.
 
@@ -256,6 +257,69 @@ Proof.
   intros d f Hin Hu o s e. apply (c07_take_ok_partial d f Hin). unfold take_known_b. now rewrite Hu.
 Qed.
 Print Assumptions c07_take_ok_limit_dialects.
+
+(* ---- value level: Model/SelectClauses.v mirrors the LIMIT/OFFSET/FETCH/ORDER BY tail of translate_select_pipeline on
+   the inputs the hook verif:select_pipeline_in logs (every Take range of the atomic pipeline, the last Sort, Distinct, the
+   projection); the harness compares it field by field with verif:select_pipeline_out.  Its clause record has, for ALL
+   inputs, the shape the presence model predicts: *)
+Theorem c07_select_clauses_shape : forall uf bare nsort dist proj off lim,
+  shape (select_clauses uf bare nsort dist proj (off, lim)) =
+  limit_model_b uf (is_some bare) (nz nsort) (negb (Z.eqb off 0)) (is_some lim).
+Proof. exact shape_refines. Qed.
+Print Assumptions c07_select_clauses_shape.
+
+(* full statement, still FALSE (N7):
+     forall d f, In (d, f) feats -> forall nsort dist proj takes c,
+       select_limit (use_fetch f) (bare_offset_limit f) nsort dist proj takes = Ret c -> forallb (supported d) (clause_uses c) = true *)
+Definition n7_takes : list erange := [ERange (Some (BInt 3)) None].
+Theorem c07_select_clauses_witness :
+  existsb (fun df => match select_limit (use_fetch (snd df)) (bare_offset_limit (snd df)) O false [] n7_takes with
+                     | Ret c => negb (forallb (supported (fst df)) (clause_uses c)) | _ => false end) feats = true.
+Proof. vm_compute. reflexivity. Qed.
+Print Assumptions c07_select_clauses_witness.
+Theorem c07_select_clauses_accepted_refuted : exists d f nsort dist proj takes c,
+  In (d, f) feats /\ select_limit (use_fetch f) (bare_offset_limit f) nsort dist proj takes = Ret c /\
+  forallb (supported d) (clause_uses c) = false.
+Proof.
+  destruct (proj1 (existsb_exists _ _) c07_select_clauses_witness) as ([d f] & Hin & H). cbn [fst snd] in H.
+  destruct (select_limit (use_fetch f) (bare_offset_limit f) O false [] n7_takes) as [c| |] eqn:E; try discriminate.
+  exists d, f, O, false, [], n7_takes, c. split; [exact Hin|]. split; [exact E|]. now destruct (forallb _ _).
+Qed.
+Print Assumptions c07_select_clauses_accepted_refuted.
+
+(* every dialect row of the regenerated table, every list of take ranges (any bounds, any number of takes), every sort,
+   every projection: outside the known class the emitted clause combination is one the engine's grammar has *)
+Theorem c07_select_clauses_accepted_partial : forall d f, In (d, f) feats -> forall nsort dist proj takes c,
+  select_limit (use_fetch f) (bare_offset_limit f) nsort dist proj takes = Ret c ->
+  clauses_known c = false -> forallb (supported d) (clause_uses c) = true.
+Proof.
+  intros d f Hin nsort dist proj takes c Hc Hk.
+  exact (select_clauses_supported use_fetch bare_offset_limit feats true c07_take_table_except_known d f Hin nsort dist proj takes c Hc Hk).
+Qed.
+Print Assumptions c07_select_clauses_accepted_partial.
+
+(* full strength for every dialect without use_fetch (eleven of the twelve rows) *)
+Theorem c07_select_clauses_accepted_limit_dialects : forall d f, In (d, f) feats -> use_fetch f = false ->
+  forall nsort dist proj takes c,
+  select_limit (use_fetch f) (bare_offset_limit f) nsort dist proj takes = Ret c -> forallb (supported d) (clause_uses c) = true.
+Proof.
+  intros d f Hin Hu nsort dist proj takes c Hc. apply (c07_select_clauses_accepted_partial d f Hin nsort dist proj takes c Hc).
+  rewrite Hu in Hc. exact (clauses_known_no_fetch _ _ _ _ _ _ Hc).
+Qed.
+Print Assumptions c07_select_clauses_accepted_limit_dialects.
+
+(* the numbers behind LIMIT, OFFSET and FETCH FIRST are non-negative for every list of takes the resolver lets through *)
+Theorem c07_select_quantities_nonneg : forall uf bare nsort dist proj rs c, Forall valid rs ->
+  select_limit uf bare nsort dist proj (map lit rs) = Ret c ->
+  (forall z, k_limit c = Some (LNum z) -> (0 <= z)%Z) /\ (forall z r, k_offset c = Some (z, r) -> (0 <= z)%Z) /\
+  (forall z, k_fetch c = Some z -> (0 <= z)%Z).
+Proof. exact select_limit_nonneg. Qed.
+Print Assumptions c07_select_quantities_nonneg.
+
+Example c07_ex_select_clauses_mssql :
+  clauses_code (select_limit true None 1 false [] [ERange (Some (BInt 2)) (Some (BInt 4)); ERange (Some (BInt 2)) None])
+  = (1, ((0, 0%Z, []), (1, 2%Z, true), (1, 2%Z), (0, 1, 0))).
+Proof. vm_compute. reflexivity. Qed.
 
 (* an operator that is not emitted natively and has no usable template for the dialect (a `null` body, or no
    implementation at all) is a compile error of the model; the harness compares [op_outcome] with the compiler for
